@@ -82,3 +82,19 @@ proof fn theorem_lf_first<V>(n: NfaBuilder<u8, V>, ps: Seq<Seq<u8>>, x: Seq<u8>,
         }
     }
 }
+// the passes keep the trie and the outputs of the states: the registered patterns stay the same
+proof fn lemma_lf_inv_frame<V>(a: NfaBuilder<u8, V>, b: NfaBuilder<u8, V>, ps: Seq<Seq<u8>>, k: int)
+    requires lf_inv(a, ps, k), passes_frame(a, b), trie_ok(a),
+    ensures lf_inv(b, ps, k),
+{
+    assert forall|t: int| 0 <= t < a.states@.len() implies #[trigger] t_edges(b, t) == t_edges(a, t) by { }
+    assert forall|q: Seq<u8>| walk(b, q) == walk(a, q) by { lemma_walk_same_edges(b, a, q); }
+    assert forall|q: Seq<u8>| #[trigger] is_registered(b, q) == is_registered(a, q) by {
+        if walk(a, q).is_some() { lemma_walk_range(a, q); }
+    }
+    assert forall|j: int| 0 <= j < k && !is_registered(b, #[trigger] ps[j]) implies b.match_kind is LeftmostFirst && exists|i: int| 0 <= i < j && is_pprefix(#[trigger] ps[i], ps[j]) && is_registered(b, ps[i]) by {
+        assert(!is_registered(a, ps[j]));
+        let i = choose|i: int| 0 <= i < j && is_pprefix(#[trigger] ps[i], ps[j]) && is_registered(a, ps[i]);
+        assert(is_registered(b, ps[i]));
+    }
+}
